@@ -255,58 +255,98 @@ where
     S: 'static,
 {
     use std::sync::{Arc, Mutex};
+    // a worker that exceeds the limit is abandoned (a thread cannot be killed) and replaced, so the
+    // remaining items are still processed; at most `MAX_ABANDONED` spinning threads are tolerated
+    const MAX_ABANDONED: usize = 48;
+    #[derive(Clone, Copy)]
+    struct Slot {
+        current: Option<(std::time::Instant, usize)>,
+        done: bool,
+        abandoned: bool,
+    }
     let n = items.len();
     let threads = threads.max(1).min(n.max(1));
     let items = Arc::new(items);
     let next = Arc::new(Mutex::new(0usize));
     let results: Arc<Mutex<Vec<(usize, O)>>> = Arc::new(Mutex::new(Vec::with_capacity(n)));
-    let current: Arc<Mutex<Vec<Option<(std::time::Instant, usize)>>>> = Arc::new(Mutex::new(vec![None; threads]));
-    let done: Arc<Mutex<Vec<bool>>> = Arc::new(Mutex::new(vec![false; threads]));
+    let slots: Arc<Mutex<Vec<Slot>>> = Arc::new(Mutex::new(Vec::new()));
     let init = Arc::new(init);
     let f = Arc::new(f);
-    for t in 0..threads {
-        let (items, next, results, current, done, init, f) =
-            (items.clone(), next.clone(), results.clone(), current.clone(), done.clone(), init.clone(), f.clone());
-        std::thread::Builder::new()
-            .stack_size(512 << 20)
-            .spawn(move || {
-                let mut state = init();
-                loop {
-                    let i = {
-                        let mut g = next.lock().unwrap();
-                        let i = *g;
-                        *g += 1;
-                        i
-                    };
-                    if i >= items.len() {
-                        break;
+    let spawn = {
+        let (items, next, results, slots, init, f) = (items.clone(), next.clone(), results.clone(), slots.clone(), init.clone(), f.clone());
+        move || {
+            let t = {
+                let mut g = slots.lock().unwrap();
+                g.push(Slot { current: None, done: false, abandoned: false });
+                g.len() - 1
+            };
+            let (items, next, results, slots, init, f) = (items.clone(), next.clone(), results.clone(), slots.clone(), init.clone(), f.clone());
+            std::thread::Builder::new()
+                .stack_size(512 << 20)
+                .spawn(move || {
+                    let mut state = init();
+                    loop {
+                        let i = {
+                            let mut g = next.lock().unwrap();
+                            let i = *g;
+                            *g += 1;
+                            i
+                        };
+                        if i >= items.len() {
+                            break;
+                        }
+                        slots.lock().unwrap()[t].current = Some((std::time::Instant::now(), i));
+                        let out = f(&mut state, &items[i]);
+                        let abandoned = {
+                            let mut g = slots.lock().unwrap();
+                            g[t].current = None;
+                            g[t].abandoned
+                        };
+                        if abandoned {
+                            // finished after all, but it was already reported as hung and replaced
+                            return;
+                        }
+                        results.lock().unwrap().push((i, out));
                     }
-                    current.lock().unwrap()[t] = Some((std::time::Instant::now(), i));
-                    let out = f(&mut state, &items[i]);
-                    current.lock().unwrap()[t] = None;
-                    results.lock().unwrap().push((i, out));
-                }
-                done.lock().unwrap()[t] = true;
-            })
-            .expect("spawn worker");
+                    slots.lock().unwrap()[t].done = true;
+                })
+                .expect("spawn worker");
+        }
+    };
+    for _ in 0..threads {
+        spawn();
     }
     let mut hung: Vec<usize> = Vec::new();
     loop {
         std::thread::sleep(std::time::Duration::from_millis(100));
-        let cur = current.lock().unwrap().clone();
-        let dn = done.lock().unwrap().clone();
-        let mut all = true;
-        hung.clear();
-        for t in 0..threads {
-            if dn[t] {
-                continue;
-            }
-            match cur[t] {
-                | Some((since, i)) if since.elapsed() > limit => hung.push(i),
-                | _ => all = false,
+        let mut to_spawn = 0usize;
+        let mut live = 0usize;
+        {
+            let mut g = slots.lock().unwrap();
+            let abandoned_now = g.iter().filter(|s| s.abandoned).count();
+            let mut abandoned = abandoned_now;
+            for s in g.iter_mut() {
+                if s.done || s.abandoned {
+                    continue;
+                }
+                match s.current {
+                    | Some((since, i)) if since.elapsed() > limit => {
+                        s.abandoned = true;
+                        hung.push(i);
+                        abandoned += 1;
+                        if abandoned <= MAX_ABANDONED {
+                            to_spawn += 1;
+                        }
+                    }
+                    | _ => live += 1,
+                }
             }
         }
-        if all {
+        for _ in 0..to_spawn {
+            spawn();
+            live += 1;
+        }
+        if live == 0 {
             break;
         }
     }
